@@ -16064,6 +16064,9 @@ int cg_nmultifam(int *nfams)
     } else if (strcmp(posit->label,"UserDefinedData_t")==0) {
         cgns_user_data *user_data = (cgns_user_data *)posit->posit;
         (*nfams) = user_data->nfamname;
+    } else if (strcmp(posit->label,"ParticleZone_t")==0) {
+        cgns_pzone *pzone = (cgns_pzone *)posit->posit;
+        (*nfams) = pzone->nfamname;
     } else {
         cgi_error("AdditionalFamilyName_t node not supported under '%s' type node",posit->label);
         (*nfams) = 0;
